@@ -44,7 +44,7 @@ func (c12) Describe() sim.Description {
 		RealCode:    []string{"config.go RuntimeConfig options", "cache.go, internal/filecache (real directory)", "wazevo engine_cache.go re-binding of cached entries", "internal/wasm/binary decoder memory sizing", "experimental.MemoryAllocator and listeners"},
 		Stubs:       []string{"none"},
 		Assumptions: []string{"this is a configuration lattice sampled swarm-style; the stateful part is the shared caches touched in tape-chosen orders"},
-		FaultKinds:  []string{"none"},
+		FaultKinds:  []string{"guest_trap", "host_panic", "context cancelled after the call returned", "caches first used by a runtime with older features"},
 	}
 }
 
